@@ -76,6 +76,16 @@ def handle (line : String) : String :=
     (match printInit proto (.bool (v == "1")) with
       | some cs => "ok " ++ String.ofList cs
       | none => "unmodelled")
+  | ["print", proto, "f", v] => match v.toNat? with
+    | some b => (match printInit proto (.float b) with
+      | some cs => "ok " ++ String.ofList cs
+      | none => "unmodelled")
+    | none => "bad-op"
+  | ["print", proto, "d", v] => match v.toNat? with
+    | some b => (match printInit proto (.double b) with
+      | some cs => "ok " ++ String.ofList cs
+      | none => "unmodelled")
+    | none => "bad-op"
   | ["print", proto, "n"] =>
     (match printInit proto .null with
       | some cs => "ok " ++ String.ofList cs
